@@ -27,6 +27,7 @@ func finish(t vstat.Fataler, tc *tcase, res result) {
 	cls := append(append([]string{}, res.classes...), kf...)
 	vstat.Class("probes", int64(res.probes))
 	vstat.Class("probes:TX", int64(res.tx))
+	vstat.Class("probes:TX:ipcsum-double-fold", int64(res.txDouble))
 	vstat.Class("ops:skipped-foreign-circuit-id", int64(res.skipped))
 	vstat.Case(res.nt, vstat.Hash(jsonOf(tc)), func() any {
 		return map[string]any{"case": tc, "log": res.log}
@@ -106,6 +107,13 @@ func TestPropRetire(t *testing.T) {
 // RELEASE of an address that was only offered.
 func TestPropReleaseOffered(t *testing.T) {
 	propFlavour(t, flavour{name: "release-offered", access: allAccess, event: "release-offered"}, 400, 6000)
+}
+
+// Control-plane calls while subscribers are cached: AddPool with an id that is taken (must change nothing the fast
+// path sees), a second pool that becomes the default, RemovePool (and the id coming back, possibly with another
+// definition), SetServerConfig again; each followed by probes from every client.
+func TestPropControlPlane(t *testing.T) {
+	propFlavour(t, flavour{name: "control-plane", access: allAccess, event: "pools"}, 500, 8000)
 }
 
 // Free mixture of everything.
